@@ -408,7 +408,7 @@ func (g *schemaGenerator) structFieldValidators(
 				})
 			}
 
-			if f.SchemaType.MultipleOf != nil && v.Type == float64Type {
+			if f.SchemaType.MultipleOf != nil && (v.Type == float64Type || !isIntegral(*f.SchemaType.MultipleOf)) {
 				g.output.file.Package.AddImport("math", "")
 			}
 		}
